@@ -4,6 +4,11 @@
 // states and compared with the greatest downward / upward simulation computed by a naive fixpoint on the un-renamed
 // automaton.  Downward: arbitrary automata (useless / leaf-only states included).  Upward: automata without useless
 // states (all NS states useful).  Solver variables: rule presence bits, finality bits, permutation bits.
+// RMASK restricts the rule universe to a sub-universe (bit i = universe rule i may be present); PERMFIX=k replaces the
+// symbolic permutation by the k-th concrete one (used where symbolic state numbers would make hash values symbolic).
+// VIA_REINDEX: the path of `vata sim` (cli/operations.hh): the automaton, built with the arbitrary concrete numbers RENAME
+// (composed with the permutation), is first renumbered densely by ReindexStates with a weak translator, the number of
+// states counted by that translator is passed on, and the relation is read at the translated numbers.
 #include <vata/explicit_tree_aut.hh>
 #include <vata/sim_param.hh>
 #include "sim_oracle.h"
@@ -17,7 +22,12 @@ using namespace VATA;
 #ifndef RMASK
 #define RMASK (~0ul)     // sub-universe: bit i set = universe rule i may be present
 #endif
+#ifndef RENAME
+#define RENAME {0, 1, 2, 3}   // concrete state numbers; only with VIA_REINDEX may they be sparse (>= NS)
+#endif
+static const unsigned RENAME_TAB[] = RENAME;
 typedef U::SymAut<NS> SA;
+static unsigned popcount(unsigned m) { unsigned c = 0; for (unsigned i = 0; i < 32; ++i) c += (m >> i) & 1; return c; }
 
 extern "C" void harness(void)
 {
@@ -38,11 +48,21 @@ extern "C" void harness(void)
 #endif
 #endif
   // ---- the automaton under test, with renamed states
-  ExplicitTreeAut aut; A.build(aut, P.p);
+  unsigned ren[NS]; for (unsigned q = 0; q < NS; ++q) { ren[q] = 0; for (unsigned v = 0; v < NS; ++v) ren[q] = P.p[q] == v ? RENAME_TAB[v] : ren[q]; }
+  ExplicitTreeAut aut; A.build(aut, ren);
   SimParam sp;
   sp.SetRelation(DIR == 0 ? SimParam::e_sim_relation::TA_DOWNWARD : SimParam::e_sim_relation::TA_UPWARD);
+#ifdef VIA_REINDEX
+  AutBase::StateToStateMap translMap; AutBase::StateType stateCnt = 0;
+  AutBase::StateToStateTranslWeak stateTransl(translMap, [&stateCnt](const AutBase::StateType&) { return stateCnt++; });
+  ExplicitTreeAut dense = aut.ReindexStates(stateTransl);
+  CHECK(stateCnt == popcount(occ), 4);         // the translator has seen exactly the states of the automaton
+  sp.SetNumStates(stateCnt);
+  AutBase::StateDiscontBinaryRelation sim = dense.ComputeSimulation(sp);
+#else
   sp.SetNumStates(NS);
   AutBase::StateDiscontBinaryRelation sim = aut.ComputeSimulation(sp);
+#endif
 
   // ---- oracle on the canonical numbering, transported along the permutation
   bool S[NS][NS], E[NS][NS];
@@ -59,14 +79,24 @@ extern "C" void harness(void)
   U::upwardSimulation<NS>(A, S);
 #endif
 #endif
+#ifdef VIA_REINDEX
+  // canonical numbering throughout: state q of the universe is the library state translMap[ren[q]]
+  for (unsigned q = 0; q < NS; ++q) for (unsigned r = 0; r < NS; ++r) E[q][r] = S[q][r];
+  const unsigned occR = occ;
+  unsigned long dn[NS]; for (unsigned q = 0; q < NS; ++q) { dn[q] = 0; if ((occ >> q) & 1) { auto it = translMap.find(ren[q]); CHECK(it != translMap.end(), 5); if (it != translMap.end()) dn[q] = it->second; CHECK(dn[q] < stateCnt, 6); } }
+  for (unsigned q = 0; q < NS; ++q) for (unsigned r = 0; r < NS; ++r) CHECK(q == r || !((occ >> q) & 1) || !((occ >> r) & 1) || dn[q] != dn[r], 7);   // injective
+#define LIBSTATE(x) dn[x]
+#else
   P.apply(S, E);
   const unsigned occR = P.applyMask(occ);      // occurring states in the numbering of the library automaton
+#define LIBSTATE(x) (x)
+#endif
 
   // ---- the property: get(x,y) for all states of the automaton (a number that does not occur is not a state)
   bool G[NS][NS];
   for (unsigned x = 0; x < NS; ++x) for (unsigned y = 0; y < NS; ++y) { G[x][y] = false;
     if (((occR >> x) & 1) & ((occR >> y) & 1)) {
-      G[x][y] = sim.get(x, y);
+      G[x][y] = sim.get(LIBSTATE(x), LIBSTATE(y));
 #ifdef VS_SELFTEST_2
       CHECK(G[x][y] == E[y][x], 1);            // seeded wrong expectation: direction swapped
 #elif defined(C04_ONLY_SOUNDNESS)
